@@ -260,15 +260,9 @@ def apply_rewrite(name, circ):
         cp.remove_identity()
         return cp, "wire.rmid order=" + (",".join(map(str, order)) or "-")
     if name == "group_one_qubit_gates":
-        order = [o[:-4] for o in cp.node_dict["Output"]]
-        cmd = "wire.group order=" + (",".join(order) or "-")
-        try:
-            cp.group_one_qubit_gates()
-        except Exception as e:  # noqa: BLE001
-            e._cmd = cmd
-            e._partial = cp
-            raise
-        return cp, cmd
+        order = [o[:-4] for o in cp.node_dict.get("Output", [])]
+        cp.group_one_qubit_gates()
+        return cp, "wire.group order=" + (",".join(order) or "-")
     raise ValueError(name)
 
 
@@ -283,23 +277,6 @@ def check_rewrites(ctx, res, drv, circ, tag, with_dm):
         try:
             new, cmd = apply_rewrite(name, circ)
         except Exception as e:  # noqa: BLE001
-            cmd = getattr(e, "_cmd", None)
-            has_mz = any(t[0] == "MZ" for t in before["nodes"].values())
-            if name == "group_one_qubit_gates" and has_mz and isinstance(e, AssertionError):
-                # known finding: a MeasurementZ carries the label one-qubit, cannot be wrapped, and has already been
-                # removed from the circuit when the constructor of the wrapper raises
-                part = getattr(e, "_partial", None)
-                lost = part is not None and sum(1 for t in wu.snapshot(part)["nodes"].values() if t[0] == "MZ") < \
-                    sum(1 for t in before["nodes"].values() if t[0] == "MZ")
-                res.count("errors", "known-finding:group:MeasurementZ")
-                if res.errors["known-finding:group:MeasurementZ"] <= 3:  # reported a few times, counted always
-                    res.violation("group:MeasurementZ:raises-and-drops-measurement",
-                                  "grouping single-qubit gates does not change the state the circuit compiles to",
-                                  input=inp, impl=f"AssertionError; measurement removed from the circuit: {lost}")
-                r = drv.ask(f"{cmd} {enc}")
-                if r.get("_err") != "assertion":
-                    res.exact_break("wire.group", input=inp, impl="AssertionError", model=r["_raw"][:300])
-                continue
             res.violation(f"rewrite:{name}:raised", "the rewrite returns a circuit compiling to the same state", input=inp,
                           impl=f"{type(e).__name__}: {e}"[:300])
             continue
